@@ -91,6 +91,9 @@ pub enum E2Cmd {
     /// n valid SYNs are waiting on server i's socket when the shutdown is requested: the request
     /// must be served within a bounded number of handled datagrams (bounded fairness of the loop)
     FloodShutdown { i: usize, n: u32 },
+    /// user code queues n gossip commands (ChitchatHandle::gossip) in one go, without yielding to
+    /// the loop, and then asks for a shutdown: the request must still complete (seeded/C19-12)
+    BurstShutdown { i: usize, n: u32 },
     /// n valid SYNs are waiting on server i's socket and the reply to the first one is held by the
     /// transport for one gossip interval, so a round is due while the backlog is still there: the
     /// round must start within a bounded number of handled datagrams
@@ -909,6 +912,35 @@ impl Run {
                     Err(_) => Err(viol(self.step, "C19.shutdown_hangs", format!("server {i}: shutdown did not complete within one gossip interval"))),
                 }
             }
+            E2Cmd::BurstShutdown { i, n: count } => {
+                let excused_ms = if *i < n { self.excuse_budget(*i) } else { 0 };
+                let Some(s) = self.srv.get_mut(*i) else { return Ok(()) };
+                if s.ended {
+                    return Ok(());
+                }
+                let Some(h) = s.handle.take() else { return Ok(()) };
+                let mut accepted = 0usize;
+                for k in 0..(*count).min(2000) as usize {
+                    if h.gossip(addr(k % n)).is_ok() {
+                        accepted += 1;
+                    }
+                }
+                *self.gossip_cmds.entry(addr(*i)).or_insert(0) += accepted;
+                {
+                    let mut net = self.net.lock().unwrap();
+                    net.stats.inc("shutdown_requests");
+                    net.stats.inc("fault_command_burst_at_shutdown");
+                }
+                self.nontrivial = true;
+                let r = tokio::time::timeout(Duration::from_millis(self.cfg.interval_ms + excused_ms + 5), h.shutdown()).await;
+                self.resync_clock();
+                self.srv[*i].ended = true;
+                match r {
+                    Ok(Ok(())) => Ok(()),
+                    Ok(Err(e)) => Err(viol(self.step, "C19.shutdown_error", format!("server {i}: shutdown returned an error: {e}"))),
+                    Err(_) => Err(viol(self.step, "C19.shutdown_hangs", format!("server {i}: shutdown requested right after {count} queued gossip commands did not complete within one gossip interval"))),
+                }
+            }
             E2Cmd::FloodRound { i, n: count } => {
                 let i = *i;
                 if i >= n || self.srv[i].ended || self.srv[i].handle.is_none() || self.excuse_budget(i) > 0 {
@@ -1449,7 +1481,11 @@ fn gen_cmds(seed: u64) -> (E2Cfg, Vec<E2Cmd>) {
             let i = r2.usize_below(n);
             if r2.chance(0.35) && terminal_used < 2 {
                 terminal_used += 1;
-                E2Cmd::FloodShutdown { i, n: *r2.pick(&[3u32, 200, 400]) }
+                if r2.chance(0.5) {
+                    E2Cmd::FloodShutdown { i, n: *r2.pick(&[3u32, 200, 400]) }
+                } else {
+                    E2Cmd::BurstShutdown { i, n: *r2.pick(&[3u32, 40, 400]) }
+                }
             } else {
                 E2Cmd::FloodRound { i, n: *r2.pick(&[3u32, 200, 400]) }
             }
